@@ -709,6 +709,7 @@ def exec_mutation(world, actor, rec):
         except Exception as ex:  # noqa
             exc = ex
     warns = real_warnings(wl)
+    world.last_exc = exc
     post, anomalies = snapshot(actor.sut)
     outcome = "ok" if exc is None else ("lib" if is_lib_exc(xgi, exc) else type(exc).__name__)
     world.logev("step", rec["uid"], actor.name, op, (fault or {}).get("kind"), outcome, digest_form(post))
